@@ -513,6 +513,7 @@ pub fn order_dependent_session(
     index: u64,
     v: &Violation,
     budget_s: u64,
+    full_prefix: bool,
 ) -> Option<Scenario> {
     let id = check.id();
     let start = Instant::now();
@@ -528,6 +529,11 @@ pub fn order_dependent_session(
             ks.push(index % 64);
         }
         ks.extend([64, 128, 256, 512]);
+        if full_prefix {
+            // the violation was found by executing the runs 0..=index in this order on one
+            // thread of a fresh process: that whole history reproduces it by construction
+            ks.push(index);
+        }
         for k in ks {
             let lo = index.saturating_sub(k);
             if lo == index {
@@ -1232,6 +1238,7 @@ pub fn run_check(check: &dyn Check, tier: Tier) -> Outcome {
     let mut order_dependent_reported = 0u32;
     let mut order_dependent_skipped = 0u32;
     let mut unreproducible = 0u32;
+    let mut seqscan_done = false;
     for (index, v, count) in groups.iter().take(MAX_GROUPS) {
         let sc = scenario_for(check, master, *index, tier);
         let left = 150u64.saturating_sub(report_start.elapsed().as_secs());
@@ -1260,26 +1267,41 @@ pub fn run_check(check: &dyn Check, tier: Tier) -> Outcome {
                 continue;
             }
             let left = 240u64.saturating_sub(report_start.elapsed().as_secs()).max(20);
-            match order_dependent_session(check, master, tier, *index, v, left.min(90)) {
-                Some(session) => {
-                    order_dependent_reported += 1;
-                    min_sc = session;
-                    min_v = v.clone();
-                    min_v.detail = format!(
+            let mut session = order_dependent_session(check, master, tier, *index, v, left.min(90), false)
+                .map(|s| (s, v.clone(), *index));
+            if session.is_none() && !seqscan_done {
+                // state shared between the worker threads: look for a violation in a history
+                // that is reproducible by construction (runs 0.. in order, one thread)
+                seqscan_done = true;
+                if let Some((j, vj)) = seq_scan_child(check, tier, 4000) {
+                    let left = 300u64.saturating_sub(report_start.elapsed().as_secs()).max(30);
+                    session = order_dependent_session(check, master, tier, j, &vj, left.min(120), true)
+                        .map(|s| (s, vj, j));
+                }
+            }
+            let confirmed = match session {
+                Some((s, sv, si)) => {
+                    let mut mv = sv.clone();
+                    mv.detail = format!(
                         "{} [order-dependent: replaying this scenario alone in a fresh process passes; it fails after the {} scenario(s) recorded under scenario.prelude have run on the same thread]",
-                        v.detail,
-                        min_sc.prelude.len()
+                        sv.detail,
+                        s.prelude.len()
                     );
-                    let sig2 = min_v.signature();
-                    reported.insert(sig2);
-                    path = write_replay(check.id(), &min_sc, &min_v, master, *index);
-                    if !reproduces_fresh(check.id(), &min_sc, &min_v, master, *index) {
-                        eprintln!(
-                            "pppsim: harness error: order-dependent replay {} did not reproduce in a fresh process",
-                            path
-                        );
-                        std::process::exit(2);
+                    if reproduces_fresh(check.id(), &s, &mv, master, si) {
+                        Some((s, mv, si))
+                    } else {
+                        None
                     }
+                }
+                None => None,
+            };
+            match confirmed {
+                Some((s, mv, si)) => {
+                    order_dependent_reported += 1;
+                    min_sc = s;
+                    min_v = mv;
+                    reported.insert(min_v.signature());
+                    path = write_replay(check.id(), &min_sc, &min_v, master, si);
                 }
                 None => {
                     // keep going: another group may have a witness that does replay
@@ -1290,7 +1312,7 @@ pub fn run_check(check: &dyn Check, tier: Tier) -> Outcome {
                         out.map(|o| o.status.code())
                     );
                     unreproducible += 1;
-                    if unreproducible >= 2 {
+                    if unreproducible >= 4 {
                         order_dependent_reported = order_dependent_reported.max(3);
                     }
                     continue;
@@ -1564,6 +1586,56 @@ pub fn sample_json(sc: &Scenario) -> Value {
         j.insert(format!("meta:{}", k), json!(v));
     }
     Value::Object(j)
+}
+
+/// `pppsim seqscan <ID> <tier> <limit>`: execute the runs 0..limit in order on ONE thread of this
+/// (fresh) process and print the first violation as one line of JSON. Used when violations seen
+/// in the parallel batch cannot be reproduced: with state shared between threads the history
+/// that led to them is spread over the workers, while this history is reproducible by
+/// construction.
+pub fn seq_scan(check: &dyn Check, tier: Tier, limit: u64, max_secs: u64) {
+    let master = master_seed();
+    let start = Instant::now();
+    for i in 0..limit {
+        let sc = scenario_for(check, master, i, tier);
+        let mut st = Stats::default();
+        let vs = check.execute(&sc, &mut st);
+        if let Some(v) = vs.into_iter().next() {
+            println!(
+                "{}",
+                json!({"index": i, "prop": v.prop, "clause": v.clause, "entry": v.entry, "shape": v.shape, "result": v.result, "detail": v.detail})
+            );
+            return;
+        }
+        if start.elapsed().as_secs() >= max_secs {
+            return;
+        }
+    }
+}
+
+fn seq_scan_child(check: &dyn Check, tier: Tier, limit: u64) -> Option<(u64, Violation)> {
+    let exe = std::env::current_exe().ok()?;
+    let out = std::process::Command::new(exe)
+        .args(["seqscan", check.id(), tier.name(), &limit.to_string()])
+        .env("VERIF_NO_SUPERVISOR", "1")
+        .output()
+        .ok()?;
+    let text = String::from_utf8_lossy(&out.stdout);
+    let line = text.lines().find(|l| l.starts_with('{'))?;
+    let v: Value = serde_json::from_str(line).ok()?;
+    let g = |k: &str| v.get(k).and_then(|x| x.as_str()).unwrap_or("").to_string();
+    Some((
+        v.get("index")?.as_u64()?,
+        Violation {
+            prop: g("prop"),
+            clause: g("clause"),
+            entry: g("entry"),
+            shape: g("shape"),
+            result: g("result"),
+            detail: g("detail"),
+            focus: None,
+        },
+    ))
 }
 
 // ------------------------------------------------------------- crashes -------
